@@ -44,6 +44,10 @@ Definition kernel_ok_minmax (o : opname) (c : ocfg) : bool :=
           tcfg_symmetric w && negb (ocfg_explicit_dequantize c)
           && ((Z.eqb (tcfg_num_bits w) 8 && op_in o k_drq_w8_ops)
               || (Z.eqb (tcfg_num_bits w) 4 && op_in o k_drq_w4_ops))
+          (* the hybrid depthwise kernel reads one weight scale PER CHANNEL:
+             per-tensor parameters run but compute garbage (observed, F20) *)
+          && negb (opname_eqb o Op_DEPTHWISE_CONV_2D
+                   && granularity_eqb (tcfg_granularity w) Gr_TENSORWISE)
       | Prec_FLOAT, None =>              (* weight only, explicit dequantize *)
           ocfg_explicit_dequantize c
           && ((Z.eqb (tcfg_num_bits w) 8 && op_in o k_wo_w8_ops)
